@@ -83,9 +83,26 @@ def _branch_for_case(repo: Repo, ci: ClassInfo, e: ast.expr, m0: int) -> Optiona
 
 
 def _single_return(fn: ast.FunctionDef) -> Optional[ast.expr]:
+    """Return expression of a straight-line function, with local assignments substituted in."""
+    from ..codec import subst
     body = stmts_of(fn)
-    if len(body) == 1 and isinstance(body[0], ast.Return):
-        return body[0].value
+    env = {}
+    for st in body:
+        if isinstance(st, ast.Assign) and len(st.targets) == 1 and isinstance(st.targets[0], ast.Name):
+            env[st.targets[0].id] = subst(st.value, env)
+        elif isinstance(st, ast.Return) and st.value is not None:
+            return subst(st.value, env)
+        else:
+            return None
+    return None
+
+
+def _lossy(e: ast.AST) -> Optional[str]:
+    for n in ast.walk(e):
+        if isinstance(n, ast.Call) and norm(n.func) in ("min", "max", "abs", "round", "int", "divmod"):
+            return norm(n)[:60]
+        if isinstance(n, ast.BinOp) and isinstance(n.op, (ast.Mod, ast.FloorDiv, ast.BitAnd, ast.RShift)):
+            return norm(n)[:60]
     return None
 
 
@@ -148,7 +165,13 @@ def inverse_pairs(repo: Repo, rep, P: str, rule: str):
             try:
                 tpoly, fpoly = alg.to_poly(tb, leaf_t), alg.to_poly(fb, leaf_f)
             except alg.NotAlgebraic as e:
-                rep.inconclusive(f"{P}.{rule}", con_t, f"[{kind}, {label}] {norm(tb)}", f"not affine: {e}", f"{rel}:{to_fn.lineno}")
+                lossy = _lossy(tb) or _lossy(fb)
+                if lossy:
+                    rep.violation(f"{P}.{rule}", con_t, f"[{kind}, {label}] to_raw = {norm(tb)[:70]}; from_raw = {norm(fb)[:70]}",
+                                  f"the conversion applies `{lossy}`, which is not injective: distinct controller values collide on one "
+                                  "stored value (the stored value must be exactly v − min resp. v)", f"{rel}:{to_fn.lineno}")
+                else:
+                    rep.inconclusive(f"{P}.{rule}", con_t, f"[{kind}, {label}] {norm(tb)}", f"not affine: {e}", f"{rel}:{to_fn.lineno}")
                 continue
             v, m = alg.Poly.sym("v"), alg.Poly.sym("m")
             if sign == 0:
